@@ -33,7 +33,7 @@ def mk_entry(kind, cfgname, thumb, arch=7):
         from armulator.armv6.arm_exceptions import DataAbortException
         from armulator.armv6.enums import DAbort
         cfg, ov = MC.std_cfg(arch=arch, **CONFIGS[cfgname])
-        m = MC.Machine(env, cfg, ov, thumb=thumb, it='any', e_sym=True, sym_sys=sym_sys_for(cfg))
+        m = MC.Machine(env, cfg, ov, thumb=thumb, it='any', e_sym=True, j_sym=True, sym_sys=sym_sys_for(cfg))
         arm = m.arm
         exp = m.pre.copy()
         if kind in ('hyptrap',) and not cfg['virt']:
@@ -134,7 +134,7 @@ def units(tier, seed=0):
 META = {
     'explanation': 'Bounded symbolic verification of the real exception-entry code: Registers.take_*_exception and '
                    'ArmV6.take_reset are executed from an arbitrary valid machine state (whole CPSR incl. mode, IT, '
-                   'A/I/F, E; all banked registers; PC; SCTLR.{V,VE,TE,EE,NMFI}; all SCR bits; HCR.{TGE,AMO,IMO,FMO}; '
+                   'A/I/F, E, and J in Thumb state (ThumbEE); all banked registers; PC; SCTLR.{V,VE,TE,EE,NMFI}; all SCR bits; HCR.{TGE,AMO,IMO,FMO}; '
                    'HSCTLR.{TE,EE}; VBAR/MVBAR/HVBAR symbolic) and every component of the post-state is compared '
                    'with the B1.9 pseudocode oracle (mode, SPSR, LR/ELR_hyp, masks, IT/J/T/E, SCR.NS, PC = vector) '
                    'including the frame (nothing else changes). Dispatch through the real emulate_cycle is checked with '
